@@ -27,7 +27,7 @@ const header = "From CSS Require Import Lib.Base Lib.Cases Model.Ranges Model.Re
 const (
 	siteData  = "pkg/bootflow/types/data.go"
 	d6        = "C11-D6-compareReferenceType"
-	d24       = "C11-D24-sortmerge-short-list"
+	d24       = siteData + ":References.SortAndMerge (list of fewer than two references; repaired finding C11-D24)"
 	maxUint64 = ^uint64(0)
 )
 
